@@ -297,6 +297,18 @@ def run_seq(ctx, segs, full):
                 ctx.ev(sig("join_authority_ref"))
                 verify(ctx, "join_authority_ref", {"entry": "join_authority_ref", "base": base, "segs": segs, "ref": str(ref), "ref_kind": rlabel},
                        guarded(lambda: URL(base).join(ref)), rfc.remove_dot_segments(rp), True)
+    # '/' and joinpath on a receiver that KEPT dot segments (pre-encoded construction), with an argument that has a dot segment of its own
+    # (the normalising branch): the whole merged path is resolved, the receiver's part included
+    if segs and not joined.startswith("/"):
+        bs = "http://h/" + lit(joined) + "/c"
+        b = guarded(URL, bs, encoded=True)
+        if not is_exc(b) and lit(joined):
+            bp = "/" + lit(joined) + "/c"
+            for label, fn, piece in (("div", lambda: b / "../x", ["../x"]), ("div", lambda: b / "./y", ["./y"]), ("joinpath", lambda: b.joinpath("z", "."), ["z", "."]),
+                                     ("joinpath", lambda: b.joinpath("..", "..", "w"), ["..", "..", "w"])):
+                spb = splice(bp, piece, True)
+                ctx.ev(sig(label + "_encoded_base"))
+                verify(ctx, label + "_encoded_base", {"entry": label + "_encoded_base", "base": bs, "segs": segs, "piece": piece}, guarded(fn), rfc.remove_dot_segments(spb), True, spb)
     # 11-12 join: rootless and rooted references (re-quoting: the reference is parsed by the constructor)
     for base, bpath in (("http://h/x/y", "/x/y"), ("http://h/x/y/", "/x/y/"), ("http://h", "")):
         if joined and not joined.startswith("/"):
